@@ -35,6 +35,8 @@ type FanSpec struct {
 	HomePath bool `json:"homePath,omitempty"`
 	// ViaLoader: the fan entry goes through a configuration file and fan2go's loader instead of a struct literal
 	ViaLoader bool `json:"viaLoader,omitempty"`
+	// CmdPadded (cmd fans): the read-back tool prints zero-padded decimals
+	CmdPadded bool `json:"cmdPadded,omitempty"`
 	// CmdOneTool (cmd fans): setPwm, getPwm and getRpm are one executable called with different arguments (the README's
 	// nvidia-settings example, ipmitool, liquidctl ...)
 	CmdOneTool bool `json:"cmdOneTool,omitempty"`
@@ -261,6 +263,9 @@ func buildWorld(ctx *Ctx, sc *Scenario) *World {
 		if err != nil {
 			panic(err)
 		}
+		if m := configuredMapOf(fan); m != nil && cfg.PwmMap != nil {
+			ctrlMap = m // (fan2go's controller takes a configured pwmMap from the fan object)
+		}
 		if sc.Fan.Measured != nil {
 			data := map[int]float64{}
 			for k, val := range sc.Fan.Measured {
@@ -281,7 +286,11 @@ func buildWorld(ctx *Ctx, sc *Scenario) *World {
 		cmdScript(filepath.Join(dir, "set.sh"), "if [ -e "+dir+"/setfail ]; then exit 1; fi; echo \"$1\" > "+dir+"/pwm; echo \"$1\" >> "+dir+"/writes")
 		// while the file "garble" exists the tool answers with a message instead of the value (exit status 0)
 		// while the file "flaky" exists every second query is answered that way (a rate-limited embedded controller)
-		cmdScript(filepath.Join(dir, "get.sh"), "if [ -e "+dir+"/getfail ]; then echo 'device busy' >&2; exit 1; fi; if [ -e "+dir+"/flaky ]; then n=$(cat "+dir+"/flaky); n=$((n+1)); echo $n > "+dir+"/flaky; if [ $((n%2)) = 0 ]; then echo 'device busy'; exit 0; fi; fi; if [ -e "+dir+"/garble ]; then echo 'device busy'; else cat "+dir+"/pwm; fi")
+		cmdScript(filepath.Join(dir, "get.sh"), "if [ -e "+dir+"/getfail ]; then echo 'device busy' >&2; exit 1; fi; if [ -e "+dir+"/flaky ]; then n=$(cat "+dir+"/flaky); n=$((n+1)); echo $n > "+dir+"/flaky; if [ $((n%2)) = 0 ]; then echo 'device busy'; exit 0; fi; fi; if [ -e "+dir+"/garble ]; then echo 'device busy'; elif [ -e "+dir+"/padded ]; then printf '%03d\\n' $(cat "+dir+"/pwm); else cat "+dir+"/pwm; fi")
+		if sc.Fan.CmdPadded {
+			// the tool prints fixed-width, zero-padded decimals (064)
+			_ = os.WriteFile(filepath.Join(dir, "padded"), []byte("1"), 0644)
+		}
 		cmdScript(filepath.Join(dir, "rpm.sh"), "p=$(cat "+dir+"/pwm); t=$(cat "+dir+"/theta); if [ \"$p\" -lt \"$t\" ]; then echo 0; else echo $((200+p*"+strconv.Itoa(sc.Plant.MaxRpm)+"/255)); fi")
 		cfg := configuration.FanConfig{ID: id, Curve: w.Curve.Id, NeverStop: sc.Fan.NeverStop,
 			Cmd: &configuration.CmdFanConfig{
@@ -335,6 +344,9 @@ func buildWorld(ctx *Ctx, sc *Scenario) *World {
 		if err != nil {
 			panic(err)
 		}
+		if m := configuredMapOf(fan); m != nil && cfg.PwmMap != nil {
+			ctrlMap = m
+		}
 		w.Fan = fan
 	default: // sim
 		s := &SimFan{Id: id, CurveId: w.Curve.Id, NeverStop: sc.Fan.NeverStop, Min: sc.Fan.SimMin, Max: sc.Fan.SimMax,
@@ -351,6 +363,23 @@ func buildWorld(ctx *Ctx, sc *Scenario) *World {
 	}
 	w.Ctrl = newController(w.Fan, sc.Loop.build(), newMemPersistence(), ctrlMap)
 	return w
+}
+
+// configuredMapOf: the pwmMap a fan object carries in its configuration (where fan2go's controller looks for it)
+func configuredMapOf(fan fans.Fan) map[int]int {
+	var m *map[int]int
+	switch f := fan.(type) {
+	case *fans.HwMonFan:
+		m = f.Config.PwmMap
+	case *fans.FileFan:
+		m = f.Config.PwmMap
+	case *fans.CmdFan:
+		m = f.Config.PwmMap
+	}
+	if m == nil {
+		return nil
+	}
+	return *m
 }
 
 func (w *World) devicePwm() int {
@@ -935,6 +964,7 @@ func genFan(r *rand.Rand, kinds []string) (FanSpec, int, int) {
 		if kind == "cmd" {
 			f.HasPwm = r.Intn(3) > 0 // a third of the cmd fans are write-only (no getPwm command)
 			f.CmdTwice = r.Intn(3) == 0
+			f.CmdPadded = r.Intn(3) == 0
 			f.CmdOneTool = !f.CmdTwice && r.Intn(2) == 0
 		}
 	}
